@@ -1539,6 +1539,10 @@ class Interp:
         if k == "mapped" and m in ("collect", "rev", "enumerate", "peekable", "skip", "take", "cloned") and True:
             if m == "collect":
                 into = ",".join(e.get("targs") or [])
+                flat = re.sub(r"\s+", "", into)
+                if re.fullmatch(r"(String|(C?Result|Option)<String(,[^<>]*)?>)", flat):
+                    # collecting string pieces into a String is their concatenation: join("") of the collected Vec
+                    return [(st, S([("join", dict(rv, collected=into), "")]))]
                 return [(st, dict(rv, collected=into))]
             return [(st, dict(rv, adaptors=rv.get("adaptors", []) + [m]))]
         if k == "mapped" and m in ("first", "last", "next"):
